@@ -4,6 +4,8 @@ import json, subprocess
 CLAIMED = {
  "C01": ("differential/round-trip oracle over exhaustive short-string sweep, grammar+mutation generation, corpora and a fault-injecting reader",
          "Byte-equality and strict/relaxed equivalence are checked online on every execution: all strings of length <=6 (quick) / <=7 (thorough) over 16 lexer-class representatives, generated+mutated documents, repository corpora, chunked/interrupted/failing readers. Held = no counterexample among the executions listed in the evidence."),
+ "C02": ("totality monitor: every entry point of a 65-row table called under panic capture, a logical step budget (hook) and an allocation counter; sweeps, grammar prefixes/deletions, typed documents with hostile values, scaling series",
+         "Each call of each text-parsing entry point is executed under catch_unwind with the parser step counter armed (256(n+16)+4(n+16)^2) and allocation counted; a panic, budget overrun, fitted growth exponent > 2.2 on adversarial families, or process death (attributed through an in-flight slot and confirmed on solitary replay) is a violation. Held = none observed on the listed executions."),
 }
 TODO = {}
 props = [json.loads(l) for l in open("/verif/properties.jsonl")]
